@@ -133,6 +133,7 @@ Expected(w) ==
                "concat_int", "assign_int", "new_alien"}
          -> {"ClassError", "TypeError", "ValueError"}
     [] w = "resize_grow" -> {"FormatError"}
+    [] w = "assign_strtable" -> {"ValueError", "TypeError", "KeyError"}
     [] w \in {"resize_huge", "resize_wrap"} -> {"OutOfMemoryError"}          \* a reservation that cannot be had: refused, nothing changes
     [] w \in {"refuse_push", "refuse_pushat", "refuse_set"} -> {"ValueError"}     \* the element type's own Assign refuses the value
     [] OTHER -> {}
